@@ -1,5 +1,6 @@
 SPECIFICATION FairSpec
 CONSTANTS
+ MaxUpdates = 0
  MaxReinit = 0  FixLostWorker = TRUE
  CountCalls = FALSE
  NW = 2  BS = 2  Total = 4  Chunk = 1  HdrSz = 1  TailSz = 2
